@@ -321,6 +321,43 @@ func init() {
 					}
 				}
 			}
+			// adding an unrelated file that lands in the SAME output file and package as the first schema and declares
+			// types named like identifiers of the emitted method bodies (Plain, Raw): every declaration generated for the
+			// other schemas must still be there, token for token
+			if ref != nil {
+				host := c20File{path: "schemas/unrelplain.json", id: "urn:unrelplain", root: "UnrelHost", pkg: files[0].pkg, out: files[0].out,
+					schema: M{"$id": "urn:unrelplain", "type": "object", "properties": M{"p": M{"$ref": "#/$defs/plain"}, "r": M{"$ref": "#/$defs/raw"}},
+						"$defs": M{"plain": M{"type": "object", "properties": M{"text": M{"type": "string"}}, "required": []any{"text"}}, "raw": M{"type": "string", "enum": []any{"x", "y"}}}}}
+				all := append(append([]c20File{}, files...), host)
+				order := make([]int, len(all))
+				for i := range order {
+					order[i] = i
+				}
+				core.Shuffle(c.R, order)
+				res, _ := run("unrelated-same-output", all, order)
+				c.Eval(shape + "|unrelated-same-output")
+				missing := ""
+				for name, before := range ref {
+					after := res.Files[name]
+					have := map[string]bool{}
+					for _, d := range strings.Split(declSet(after, nil, false), "\n\n") {
+						have[d] = true
+					}
+					for _, d := range strings.Split(declSet(before, nil, false), "\n\n") {
+						if !strings.HasPrefix(d, "import") && !have[d] && missing == "" {
+							missing = name + ": " + clip(d, 300)
+						}
+					}
+				}
+				if res.Exit != 0 || missing != "" {
+					fails++
+					if fails <= 3 {
+						replayBase["difference"] = missing
+						replayBase["added_file"] = string(core.MustJSON(host.schema))
+						c.Fail("oracle", "adding an unrelated schema file to the same output file changes a declaration generated for another schema: "+missing+clip(res.Stderr, 200), replayBase, false)
+					}
+				}
+			}
 			_ = refWD
 			if len(c.Samples) < 5 {
 				c.Sample(M{"files": len(files), "one_package": onePkg, "references": refPattern, "orders": len(perms)})
